@@ -1,5 +1,8 @@
 """C07 — generic code behaves identically at every instantiation and is fully specialised."""
 import json
+import sys
+import re
+import os
 import shutil
 
 import genericgen
@@ -176,6 +179,43 @@ def check(run):
         mw, mstats, _, _ = semcheck.run_semantic_check(run, "C07", 0, 0, with_corpus=False, extra_sources=matrixgen.sources(run, "c07", subset="generic"), tag="c07mx")
         stats["matrix_programs"] = mstats
         wits += mw
+        # the same programs: Mono has no residue, no generic definition survives under its own name, and Go would accept the result
+        import go2coq
+
+        sys.path.insert(0, os.path.dirname(os.path.abspath(__file__)))
+        import c02 as c02mod
+
+        msrcs = matrixgen.sources(run, "c07", subset="generic")
+        mroot, mpaths = semrun.write_programs("c07mx2", msrcs)
+        mres = vlib.run_harness("compile", [{"path": p_, "dumps": ["mono_dbg", "go_dbg"], "timeout_ms": 20000} for p_ in mpaths], shards=vlib.NCPU)
+        generic_names = re.compile(r"(^|#)(gid|gsome|gor|gpair|gtwo|gh\d+|tagm|pickm)$")
+        gw_texts, gw_ix = [], []
+        for src_, r in zip(msrcs, mres):
+            if not r.get("ok"):
+                continue
+            mono = rustdbg.parse(r["dumps"]["mono_dbg"])
+            acc = []
+            residue(mono, acc)
+            if acc:
+                wits.append({"kind": "type parameter / type application residue after monomorphisation: " + acc[0], "program": src_})
+            for f in mono[2]["toplevels"][1]:
+                if generic_names.search(f[2]["name"][1]):
+                    wits.append({"kind": "the generic definition %s is emitted under its own name instead of one instance per instantiation" % f[2]["name"][1], "program": src_})
+                    break
+            try:
+                gw_texts.append("Definition f%d := %s.\n" % (len(gw_texts), go2coq.file(rustdbg.parse(r["dumps"]["go_dbg"]))))
+                gw_ix.append(src_)
+            except (go2coq.Conv, KeyError, AssertionError):
+                pass
+        per_ = 16
+        hdr = "From Goml Require Import Common.Base Sem.GoAst C02.GoCheck.\nOpen Scope N_scope.\n"
+        codes = []
+        for o in vlib.coq_eval_many("c07wf", [hdr + "".join(gw_texts[k : k + per_]) + "Eval vm_compute in [%s].\n" % "; ".join("match go_wf f%d with [] => 0 | (_, (c, _)) :: _ => c end" % j for j in range(k, min(k + per_, len(gw_texts)))) for k in range(0, len(gw_texts), per_)], timeout=1500):
+            codes += vlib.parse_nat_list(o)
+        for src_, code in zip(gw_ix, codes):
+            if code:
+                wits.append({"kind": "Go would reject the program emitted for generic code: %s" % c02mod.CODES.get(code, code), "program": src_})
+        shutil.rmtree(mroot, ignore_errors=True)
     except Broken as b:
         broken.append(b)
     # regression corpus: instance names must be unique (minimised failures run on every check)
